@@ -510,19 +510,18 @@ Section Success.
       + destruct H; constructor; cbn; auto.
       + assert (Hex : excuse (mk_sl (s_n s) (s_index s) true (s_left s) (s_thr s) WDone (s_m s)
                                      (s_claims s) (s_consumed s) true)) by (left; reflexivity).
-        destruct H; constructor; cbn; auto.
-        intros Hne. exfalso. exact (Hne Hex).
+        destruct H; constructor; cbn; auto; try (intros Hne; exfalso; exact (Hne Hex)).
     - unfold main_step in Hs. destruct (s_m s) as [k acc|r] eqn:Hm; [|discriminate].
-      destruct (J_join _ H _ _ eq_refl) as (Hl & Hk & Hj).
+      destruct (J_join _ H _ _ Hm) as (Hl & Hk & Hj).
       destruct (k <? length (s_thr s)) eqn:Hlt.
       + apply Nat.ltb_lt in Hlt. destruct (nth_error (s_thr s) k) as [th|] eqn:Hth; [|discriminate].
         destruct (t_pc th) as [| | | | | |[c|e]] eqn:Hpc; try discriminate; injection Hs as <-.
         * assert (Hexq : forall P : Prop, (excuse s -> P) -> excuse (sl_set_m s (MJoin (S k) (c :: acc))) -> P).
           { intros P HP E. apply HP. destruct E as [E|E]; [left; exact E | right; exact E]. }
           constructor; cbn.
-          -- intros Hst. destruct (J_stop _ H Hst) as [E|(rs & E)]; [left; destruct E as [E|E]; [left|right]; exact E | discriminate].
+          -- intros Hst. destruct (J_stop _ H Hst) as [E|(rs & E)]; [left; destruct E as [E|E]; [left|right]; exact E | rewrite Hm in E; discriminate].
           -- intros k0 acc0 [= <- <-]. split; [cbn; lia|]. split; [lia|].
-             intros j Hj. destruct (Nat.eq_dec j k) as [->|Hn]; [eauto | apply Hj0; lia].
+             intros j Hjk. destruct (Nat.eq_dec j k) as [->|Hn]; [eauto | apply Hj; lia].
           -- discriminate.
           -- intros Hne. apply (J_claimed _ H). intros E. apply Hne. destruct E as [E|E]; [left|right]; exact E.
           -- intros t0 x Hx Hp. destruct (J_left _ H _ _ Hx Hp) as [E|E]; [left; exact E | right; destruct E as [E|E]; [left|right]; exact E].
@@ -532,7 +531,7 @@ Section Success.
           -- apply (K_errstop _ H).
           -- discriminate.
         * constructor; cbn.
-          -- intros Hst. destruct (J_stop _ H Hst) as [E|(rs & E)]; [left; destruct E as [E|E]; [left|right]; exact E | discriminate].
+          -- intros Hst. destruct (J_stop _ H Hst) as [E|(rs & E)]; [left; destruct E as [E|E]; [left|right]; exact E | rewrite Hm in E; discriminate].
           -- discriminate.
           -- discriminate.
           -- intros Hne. apply (J_claimed _ H). intros E. apply Hne. destruct E as [E|E]; [left|right]; exact E.
